@@ -410,8 +410,14 @@ class Effects:
         g = self.an.cfg(f)
         out: List[Effect] = []
         seen = set()
+        live, stack = {g.entry.id}, [g.entry]
+        while stack:
+            for s_, _l in stack.pop().succ:
+                if s_.id not in live:
+                    live.add(s_.id)
+                    stack.append(s_)
         for n in g.nodes:
-            if not n.pred and n is not g.entry:
+            if n.id not in live:
                 continue  # unreachable copy
             for e in self.of_node(n):
                 k = (id(e.node.ast), e.path, e.kind)
